@@ -13,8 +13,8 @@ import tempfile
 import time
 
 VERIF = os.path.dirname(os.path.dirname(os.path.abspath(__file__)))
-REPO = "/repo"
-ENV = dict(os.environ, OMP_NUM_THREADS="1")
+REPO = os.environ.get("MABWISER_REPO", "/repo")
+ENV = dict(os.environ, OMP_NUM_THREADS="1", MABWISER_REPO=REPO)
 
 
 def sh(cmd, cwd=None, timeout=3600):
